@@ -136,6 +136,13 @@ package gkvlite
 //@ ghost tvs (Array Int Tree)
 //@ ghost ias (Array Int Int)
 //@ ghost net (Array Int Int)
+//@ ghost vis.n Int
+//@ ghost vis.key (Array Int Int)
+//@ ghost vis.item (Array Int Int)
+//@ ghost vis.depth (Array Int Int)
+//@ ghost vis.hasval (Array Int Bool)
+//@ ghost vis.stop Bool
+//@ ghost orphans Int
 //@ ghost src.file (Array Int Int)
 //@ ghost src.off (Array Int Int)
 
@@ -1275,3 +1282,83 @@ package gkvlite
 //@   ensures [C01,C13] exact-totals: err == nil ==> numItems == cnt(old(tvs)[old(t.root.root)]) && numBytes == sumb(old(tvs)[old(t.root.root)])
 //@   ensures [C19] no-value-bytes: io.valbytes == old(io.valbytes)
 //@   ensures [C04,C09] changes-no-version: t.root == old(t.root) && rootNodeLoc.refs == old(rootNodeLoc.refs) && rootNodeLoc.root == old(rootNodeLoc.root) && rootNodeLoc.next == old(rootNodeLoc.next) && rootNodeLoc.chainedCollection == old(rootNodeLoc.chainedCollection) && rootNodeLoc.chainedRootNodeLoc == old(rootNodeLoc.chainedRootNodeLoc) && tvs == old(tvs) && ias == old(ias) && (forall m {node.next[m]} :: !fresh(m) ==> node.next[m] == old(node.next[m])) && (forall x {nodeLoc.loc[x]} {nodeLoc.next[x]} :: !fresh(x) ==> nodeLoc.loc[x] == old(nodeLoc.loc[x]) && nodeLoc.next[x] == old(nodeLoc.next[x])) && freeNodes == old(freeNodes) && freeNodeLocs == old(freeNodeLocs) && freeRootNodeLocs == old(freeRootNodeLocs)
+
+// ---------------------------------------------------------------------------
+// treap.go / collection.go: range visits (C06). What the visitor is handed is recorded in a ghost log
+// (vis.n entries: key position, abstract item, depth, whether a value was attached); vis.stop records that
+// some visitor call returned false. The visitor contract (A9) is the only writer of the log.
+
+//@ global visitDir(funcref("ascendChoice")) == 0 && visitDir(funcref("descendChoice")) == 1
+
+//@ func ascendChoice
+//@   props C06
+//@   requires n != nil
+//@   ensures [C06] ascend: result0 == (cmp <= 0) && result1 == ref(n.left) && result2 == ref(n.right)
+
+//@ func descendChoice
+//@   props C06
+//@   requires n != nil
+//@   ensures [C06] descend: result0 == (cmp > 0) && result1 == ref(n.right) && result2 == ref(n.left)
+
+//@ functype (*Store).visitNodes.choiceFunc(cmp, n) (choice, choiceT, choiceF)
+//@   from: the two choice functions handed to visitNodes (see the global above, justified by the contracts of ascendChoice / descendChoice)
+//@   requires n != nil
+//@   ensures [C06] ascend: visitDir(codeOf(self)) == 0 ==> choice == (cmp <= 0) && choiceT == ref(n.left) && choiceF == ref(n.right)
+//@   ensures [C06] descend: visitDir(codeOf(self)) == 1 ==> choice == (cmp > 0) && choiceT == ref(n.right) && choiceF == ref(n.left)
+
+//@ functype ItemVisitorEx(i, depth) (r)
+//@   from: A9 (neutral visitor): a visitor call appends what it was handed to the ghost log, or refuses (returns false) without logging; returning false sets vis.stop
+//@   requires i != nil && locks == emptyLocks()
+//@   modifies ghost vis.n, ghost vis.key, ghost vis.item, ghost vis.depth, ghost vis.hasval, ghost vis.stop
+//@   ensures logs-or-refuses: (vis.n == old(vis.n) + 1 && vis.key == upd(old(vis.key), old(vis.n), ikey(ia(i))) && vis.item == upd(old(vis.item), old(vis.n), ia(i)) && vis.hasval == upd(old(vis.hasval), old(vis.n), i.Val != nil) && vis.depth == upd(old(vis.depth), old(vis.n), depth)) || (!r && vis.n == old(vis.n) && vis.key == old(vis.key) && vis.item == old(vis.item) && vis.depth == old(vis.depth) && vis.hasval == old(vis.hasval))
+//@   ensures kept-going: r ==> vis.n == old(vis.n) + 1 && vis.stop == old(vis.stop)
+//@   ensures stopped: !r ==> vis.stop
+
+//@ functype ItemVisitor(i) (r)
+//@   from: A9 (neutral visitor), as ItemVisitorEx without the depth
+//@   requires i != nil && locks == emptyLocks()
+//@   modifies ghost vis.n, ghost vis.key, ghost vis.item, ghost vis.depth, ghost vis.hasval, ghost vis.stop
+//@   ensures logs-or-refuses: (vis.n == old(vis.n) + 1 && vis.key == upd(old(vis.key), old(vis.n), ikey(ia(i))) && vis.item == upd(old(vis.item), old(vis.n), ia(i)) && vis.hasval == upd(old(vis.hasval), old(vis.n), i.Val != nil) && (forall d {vis.depth[d]} :: d != old(vis.n) ==> vis.depth[d] == old(vis.depth)[d])) || (!r && vis.n == old(vis.n) && vis.key == old(vis.key) && vis.item == old(vis.item) && vis.depth == old(vis.depth) && vis.hasval == old(vis.hasval))
+//@   ensures kept-going: r ==> vis.n == old(vis.n) + 1 && vis.stop == old(vis.stop)
+//@   ensures stopped: !r ==> vis.stop
+
+//@ func (*node).Evict
+//@   props C15 C06 C01
+//@   from: code; C15: the item taken out of the slot still carries the slot's reference -- the caller owes its release (ghost counter orphans)
+//@   requires n != nil
+//@   modifies n.item.item, ghost orphans
+//@   ensures [C15] evicts-only-persisted-items: result != nil ==> result == old(n.item.item) && n.item.item == nil && !emptyLoc(n.item.loc)
+//@   ensures [C15] otherwise-nothing: result == nil ==> n.item.item == old(n.item.item)
+//@   postulate [C15] caller-owes-the-release: orphans == old(orphans) + (result != nil ? 1 : 0)
+
+//@ func (*Store).visitNodes
+//@   props C06 C19 C07 C15 C05 C13
+//@   from: C06 statement ("delivers exactly the items with key >= target in strictly ascending key order / key < target in strictly descending order", "each delivered item carries the right key, priority and (when requested) value", "visiting stops as soon as the visitor returns false", "the depth reported is the item's true depth in the tree")
+//@   requires [C05,C18] nolocks: locks == emptyLocks()
+//@   requires o != nil && t != nil && t.store == o && t.compare != nil && visitor != nil && choiceFunc != nil
+//@   requires direction: visitDir(codeOf(choiceFunc)) == 0 || visitDir(codeOf(choiceFunc)) == 1
+//@   requires [C06] search-tree: bst(tvs[n])
+//@   modifies nodeLoc.node, itemLoc.item, ghost net, ghost orphans, ghost vis.n, ghost vis.key, ghost vis.item, ghost vis.depth, ghost vis.hasval, ghost vis.stop, o.nodeAllocs, new ploc.Offset, new ploc.Length, new node.numNodes, new node.numBytes, new node.next, new itemLoc.loc, new itemLoc.item, new nodeLoc.loc, new nodeLoc.node, new nodeLoc.next, new Item.Key, new Item.Val, new Item.Priority, new Item.Transient, new mem.byte, ghost io.fails, ghost io.reads, ghost io.valbytes, ghost src
+//@   decreases cnt(tvs[n])
+//@   ensures [C07] E1: io.fails >= old(io.fails) && (io.fails > old(io.fails) ==> result1 != nil)
+//@   ensures [C07] error-stops: result1 != nil ==> !result0
+//@   ensures [C06] log-only-grows: vis.n >= old(vis.n) && (forall idx {vis.key[idx]} {vis.item[idx]} {vis.depth[idx]} {vis.hasval[idx]} {old(vis.key)[idx]} {old(vis.item)[idx]} {old(vis.depth)[idx]} {old(vis.hasval)[idx]} :: idx < old(vis.n) ==> vis.key[idx] == old(vis.key)[idx] && vis.item[idx] == old(vis.item)[idx] && vis.depth[idx] == old(vis.depth)[idx] && vis.hasval[idx] == old(vis.hasval)[idx])
+//@   ensures [C06] delivered-items-are-the-trees: forall idx {vis.key[idx]} {vis.item[idx]} {vis.depth[idx]} {vis.hasval[idx]} :: old(vis.n) <= idx && idx < vis.n ==> mem(vis.key[idx], old(tvs)[n]) && vis.item[idx] == itemAt(vis.key[idx], old(tvs)[n]) && (visitDir(codeOf(choiceFunc)) == 0 ? vis.key[idx] >= ord(target) : vis.key[idx] < ord(target)) && vis.depth[idx] == depth + depthIn(vis.key[idx], old(tvs)[n]) && (withValue ==> vis.hasval[idx])
+//@   ensures [C06] strictly-ordered: forall idx, jdx {vis.key[idx], vis.key[jdx]} :: old(vis.n) <= idx && idx < jdx && jdx < vis.n ==> (visitDir(codeOf(choiceFunc)) == 0 ? vis.key[idx] < vis.key[jdx] : vis.key[idx] > vis.key[jdx])
+//@   ensures [C06] complete-unless-stopped: result1 == nil && result0 ==> vis.stop == old(vis.stop) && (forall k {mem(k, old(tvs)[n])} :: mem(k, old(tvs)[n]) && (visitDir(codeOf(choiceFunc)) == 0 ? k >= ord(target) : k < ord(target)) ==> exists idx {vis.key[idx]} :: old(vis.n) <= idx && idx < vis.n && vis.key[idx] == k)
+//@   ensures [C06] stops-when-told: result1 == nil && !result0 ==> vis.stop
+//@   ensures [C01] never-unloads-nodes: forall x {nodeLoc.node[x]} :: x != nil && !fresh(x) && old(nodeLoc.node[x]) != nil ==> nodeLoc.node[x] == old(nodeLoc.node[x])
+//@   ensures [C01] item-slots-stay-occupied: forall y {itemLoc.item[y]} :: !fresh(y) && (old(itemLoc.item[y]) != nil || !emptyLoc(itemLoc.loc[y])) ==> itemLoc.item[y] != nil || !emptyLoc(itemLoc.loc[y])
+//@   ensures [C19] key-only-reads-no-value: !withValue ==> io.valbytes == old(io.valbytes)
+//@   ensures [C15] in-visit-eviction-releases-what-it-drops: orphans == old(orphans)
+
+//@ func (*Store).visitNodes$1
+//@   props C15 C06
+//@   from: the deferred in-visit eviction (added by the D7 repair): what is taken out of the slot is released
+//@   requires evictNode != nil && o != nil && t != nil && deref(evictNode) != nil && deref(o) != nil && locks == emptyLocks()
+//@   relies [C15] slot-holds-ref: deref(evictNode).item.item != nil && refcb(deref(o)) ==> net[deref(evictNode).item.item] >= 1
+//@   modifies deref(evictNode).item.item, ghost net, ghost orphans
+//@   after (*Store).ItemDecRef.0 sets orphans := orphans - 1
+//@   ensures [C15] releases-what-it-drops: orphans == old(orphans)
+//@   ensures [C15] evicts-only-persisted-items: deref(evictNode).item.item == old(deref(evictNode).item.item) || (deref(evictNode).item.item == nil && !emptyLoc(deref(evictNode).item.loc))
+//@   ensures [C15] released-exactly-once: (forall j {net[j]} :: j != old(deref(evictNode).item.item) ==> net[j] == old(net[j])) && (deref(evictNode).item.item != old(deref(evictNode).item.item) && deref(o).callbacks.ItemDecRef != nil ==> net[old(deref(evictNode).item.item)] == old(net[old(deref(evictNode).item.item)]) - 1)
